@@ -475,8 +475,10 @@ class ParserFunctions:
         if not name or not self.wikidb:
             return args.get(args[2], "")
 
-        nsnum, _, _ = self.wikidb.nshandler.splitname(name)
-        if nsnum == -2:
+        # the expander's own db (no wiki behind the parser) has neither attribute
+        nshandler = getattr(self.wikidb, "nshandler", None) or self.nshandler
+        nsnum, _, _ = nshandler.splitname(name)
+        if nsnum == -2 and hasattr(self.wikidb, "normalize_and_get_image_path"):
             exists = bool(self.wikidb.normalize_and_get_image_path(name.split(":")[1]))
         else:
             exists = bool(self.wikidb.normalize_and_get_page(name, 0))
